@@ -336,6 +336,18 @@ class Fn:
                 return args[0]
         if generic == "std::clone::Clone::clone" and args:
             return ("call", "clone", args, (self.name, bb))
+        if generic.startswith("std::cmp::PartialOrd::") and len(args) == 2 and generic.split("::")[-1] in ("lt", "le", "gt", "ge"):
+            # one canonical comparison: a <= b.  a >= b is b <= a; a > b is !(a <= b); a < b is !(b <= a)  (total orders)
+            m = generic.split("::")[-1]
+            a, b = args
+            site = (self.name, bb)
+            if m == "le":
+                return ("call", "std::cmp::PartialOrd::le", (a, b), site)
+            if m == "ge":
+                return ("call", "std::cmp::PartialOrd::le", (b, a), site)
+            if m == "gt":
+                return ("unop", "Not", ("call", "std::cmp::PartialOrd::le", (a, b), site))
+            return ("unop", "Not", ("call", "std::cmp::PartialOrd::le", (b, a), site))
         if generic in ("std::ops::Index::index", "std::ops::IndexMut::index_mut") and len(args) == 2:
             return ("index", args[0], args[1])
         # accessor inlining: a local straight-line function without effects is replaced by its body
